@@ -32,6 +32,27 @@ def programs(tier, rnd: random.Random):
             progs.append(f"{{ RddV = sizeof({rnd.choice(['RsV', 'RssV', 'PtV', a])}) {rnd.choice(['+', '<'])} {b}; }}")
         else:
             progs.append(f"{{ RdV = {a} {rnd.choice(['/', '%'])} {b}; }}")                   # must be rejected
+    # chains of folds (an intermediate result feeds another compile-time evaluation)
+    small = ["1", "2", "3", "20", "0x7fffffff", "1LL", "10ULL", "1U", "0", "4"]
+    m = 80 if tier == "quick" else 1500
+    for _ in range(m):
+        a, b, c = (rnd.choice(small) for _ in range(3))
+        o1, o2 = rnd.choice(["+", "-", "*"]), rnd.choice(["+", "-", "*", "<", ">", "==", "<=", ">=", "!="])
+        k = rnd.random()
+        if k < 0.4:
+            progs.append(f"{{ RddV = {a} {o1} {b} {o2} {c}; }}")
+        elif k < 0.7:
+            progs.append(f"{{ RddV = ({a} {o1} {b} {o2} {c}) ? RssV : RttV; }}")
+        else:
+            progs.append(f"{{ int64_t x = {a} {o1} {b} {o2} {c}; RddV = x; }}")
+    # negative intermediate results consumed by a 64-bit operation, a comparison or a constant condition
+    fam = []
+    for (a, o1, b) in (("1", "-", "2"), ("3", "-", "20"), ("2", "*", "3"), ("0", "-", "1"), ("3", "*", "4 - 20")):
+        for c in ("1LL", "10ULL", "0", "1U", "0x100000000"):
+            for o2 in ("+", "-", "<", ">", "==", "*"):
+                fam += [f"{{ RddV = {a} {o1} {b} {o2} {c}; }}", f"{{ int64_t x = {a} {o1} {b} {o2} {c}; RddV = x; }}",
+                        f"{{ RddV = ({a} {o1} {b} {o2} {c}) ? RssV : RttV; }}"]
+    progs += fam if tier != "quick" else rnd.sample(fam, 120)
     # dead arms mentioning things used elsewhere
     progs += ["{ RdV = RtV; RdV = (1 ? RsV : RtV); }", "{ RdV = (0 ? RsV : RtV); ReV = RsV; }", "{ RdV = (1 ? RsV : siV); ReV = siV; }",
               "{ int32_t a = RsV; RdV = (1 ? RtV : a); ReV = a; }", "{ RdV = (1 ? RsV : clz32(RtV)); }", "{ RdV = (0 ? ({ ReV = 1; RtV; }) : RsV); }",
